@@ -147,8 +147,10 @@ where
 
         for sender in self.tracker.sessions.values_mut() {
             // best effort to send the command to each session this isn't critical so we wouldn't
-            // want to slow the server down by awaiting it
-            let _ = sender.send(command).await;
+            // want to slow the server down by awaiting it: a session that is stuck in a transaction
+            // (e.g. its peer stopped reading) with a full queue must not block accepting
+            // connections, the other sessions or shutdown
+            let _ = sender.try_send(command);
         }
     }
 
